@@ -19,14 +19,22 @@ import (
 func init() {
 	domains["sched"] = domain{runSched,
 		"random task graphs (deps, nested task: calls, defer:, failing commands with exit codes 1..255, ignore_error at command and task level, " +
-			"run: once/when_changed shared tasks, guards: platforms/requires/enum/preconditions/status/prompt/internal; a stream of failing shared tasks reached " +
+			"run: once/when_changed shared tasks, guards: platforms/requires/enum/preconditions/status/prompt/internal, tasks that do not compile: a template " +
+			"error in label/env/prefix/summary, with and without sources:; a stream of failing shared tasks reached " +
 			"both from the command line and through deps / task: entries, so that top-level callers wait for indirectly started executions and vice versa) rendered to a Taskfile and run " +
 			"in-process through Executor.Setup/Run with --concurrency 0..3, --parallel, --force, --force-all, --yes; the schedule is perturbed by seeded random " +
 			"delays at every instrumentation point; the event log is replayed by the Lean LTS. non-trivial = the run had at least two activations " +
 			"alive at once or took a dedup / guard / failure / defer branch; distinct by (program, flags, event order). A stream of reference cycles through " +
 			"deduplicated tasks (a ring with run: once / when_changed members; such a ring entered by several top-level calls under --parallel; a deferred " +
 			"task: call back into the running execution) must end — with the 'called too many times' class (204, or 201 wrapping it) where the cycle is " +
-			"not behind a defer — and log the refused wait (waitCycle)"}
+			"not behind a defer — and log the refused wait (waitCycle). Names are a rendering choice the model does not see: tasks get aliases or are " +
+			"wildcard tasks (t3-* called as t3-x / t3-y), every reference (command line, deps, task: entries, deferred task calls) picks one of the callee's names, " +
+			"one program in four lives in an included Taskfile under names that contain ':' and share their last segment (n:t3:k, n:t4:k); dedup keys are " +
+			"numbered per (task, hash), so an execution shared by two different tasks is rejected. Streams: cut-short (the one execution of a deduplicated " +
+			"task is cancelled by the failure of a sibling in its caller's dependency group, a tolerant ancestor swallows that failure, and a caller outside the " +
+			"group — later, or concurrently under --parallel / as a sibling dependency — must observe that the execution did not succeed); guard-pairs (every " +
+			"guard outcome of one task drawn independently: the order of the guards decides the result); prompt-slots (confirmed prompts under --concurrency " +
+			"with --parallel calls, sibling dependencies and nested calls competing for the slots)"}
 }
 
 // ---- abstract program (mirrors TaskModel.Sched.TaskDef)
@@ -82,16 +90,16 @@ type schedCase struct {
 	CallRefs []int   `json:"call_refs,omitempty"` // rendering only: the name each command-line call uses (refName)
 	// Inc (rendering only): the tasks live in an included Taskfile (namespace `n`) and their own names there
 	// contain ':' and all end in the same segment (`t3:k`, `t4:k`, aliases `t3a:k`, wildcard `t3:k-*`)
-	Inc bool `json:"inc,omitempty"`
-	Cap      int     `json:"cap"` // 0 = unlimited
-	Parallel bool    `json:"parallel,omitempty"`
-	Force    bool    `json:"force,omitempty"`
-	ForceAll bool    `json:"force_all,omitempty"`
-	Yes      bool    `json:"yes,omitempty"`
-	Term     bool    `json:"term,omitempty"`   // a terminal is assumed (Logger.AssumeTerm): prompts read an answer
-	Answer   string  `json:"answer,omitempty"` // with Term: y | n | eof (what every prompt reads)
-	Jitter   int64   `json:"jitter"`
-	Seed     int64   `json:"seed"`
+	Inc      bool   `json:"inc,omitempty"`
+	Cap      int    `json:"cap"` // 0 = unlimited
+	Parallel bool   `json:"parallel,omitempty"`
+	Force    bool   `json:"force,omitempty"`
+	ForceAll bool   `json:"force_all,omitempty"`
+	Yes      bool   `json:"yes,omitempty"`
+	Term     bool   `json:"term,omitempty"`   // a terminal is assumed (Logger.AssumeTerm): prompts read an answer
+	Answer   string `json:"answer,omitempty"` // with Term: y | n | eof (what every prompt reads)
+	Jitter   int64  `json:"jitter"`
+	Seed     int64  `json:"seed"`
 	// Barrier > 0: every shell command writes to a stdout that blocks until Barrier activations have
 	// entered (work-conservation probe: dependencies must all be started although only `cap` can run)
 	Barrier int `json:"barrier,omitempty"`
